@@ -41,3 +41,42 @@ class first_place_votes_proved:
 
     def hint_raise_ValueError(profile):
         return one_zeros_ok(len(profile.candidates)) and repl_len(Fraction(0), len(profile.candidates))
+
+
+@contract("utils.py", "borda_scores", props=("C04",), when=("Profile", "proved"), unfold=3)
+class borda_scores_proved:
+    """exact mode: the Borda scores are the positional scores for the vector (n, n-1, ..., 1), n = number of listed candidates (ties and
+    unlisted candidates share the average of their places); TypeError iff a ballot has no ranking"""
+    params = dict(profile=Profile, to_float=Bool)
+    returns = Dict(Real)
+    forall = dict(x=Str)
+
+    def witnesses():
+        from votekit.ballot import Ballot
+        from votekit.pref_profile import PreferenceProfile
+        A, B = frozenset("A"), frozenset("B")
+        p = PreferenceProfile(ballots=(Ballot(ranking=(A, B), weight=Fraction(3)), Ballot(ranking=(frozenset("BC"),), weight=Fraction(1, 2))), candidates=("A", "B", "C"))
+        return [dict(profile=p, to_float=False, x="B"), dict(profile=p, to_float=False, x="C")]
+
+    def requires(profile, to_float):
+        return (not to_float and len(profile.candidates) > 0 and distinct(profile.candidates, len(profile.candidates))
+                and implies(all_ranked(profile.ballots, len(profile.ballots)),
+                            all_rk_ok(profile.ballots, len(profile.ballots), frozenset(profile.candidates))))
+
+    def raises_TypeError(profile, to_float):
+        return not all_ranked(profile.ballots, len(profile.ballots))
+
+    def ensures(profile, to_float, result, x):
+        return (frozenset(result.keys()) == frozenset(profile.candidates)
+                and implies(x in profile.candidates,
+                            result[x] == wpts(amc_prefix(profile.ballots, len(profile.ballots), frozenset(profile.candidates)), len(profile.ballots),
+                                              desc(len(profile.candidates), len(profile.candidates)), x)))
+
+    def hint_return(profile):
+        return desc_ok(len(profile.candidates), len(profile.candidates)) and desc_len(len(profile.candidates), len(profile.candidates))
+
+    def hint_raise_ValueError(profile):
+        return desc_ok(len(profile.candidates), len(profile.candidates)) and desc_len(len(profile.candidates), len(profile.candidates))
+
+    def hint_raise_TypeError(profile):
+        return desc_ok(len(profile.candidates), len(profile.candidates)) and desc_len(len(profile.candidates), len(profile.candidates))
